@@ -112,3 +112,308 @@ Proof.
   pose proof (law_delta s new (diff s new) []) as H. cbn [is_empty] in H. rewrite andb_true_r in H.
   apply H; [seteq_tac | reflexivity | exact Hd].
 Qed.
+
+(* ------------------------------------------------------------------ *)
+(* Every model step satisfies every clause of the law.                  *)
+
+Section Main.
+  Variable vld : Z -> option Z.
+
+  Lemma law_step_intro s o ob bo ba :
+    builtin vld s o (o_ret ob) = (bo, ba) ->
+    outcome_eqb (o_out ob) bo = true ->
+    seteq (o_after ob) ba = true ->
+    (negb (is_raise (o_out ob)) || (seteq (o_after ob) s && is_nil (o_events ob))) = true ->
+    clauses s (o_after ob) (o_events ob) ->
+    (negb (is_copy o) ||
+       (seteq (o_after ob) s && match o_copy_validates ob with Some true => true | _ => false end)) = true ->
+    law_step vld s o ob = [].
+  Proof.
+    intros Hb H1 H2 H3 Hc H8. unfold law_step. rewrite Hb, H1, H2, H3, H8. cbn [chk app].
+    pose proof (clauses_chk _ _ _ Hc) as H. cbn [chk app]. rewrite app_nil_r. exact H.
+  Qed.
+
+  Lemma clauses_raise s : clauses s s [].
+  Proof. apply law_unchanged, seteq_refl. Qed.
+
+  Lemma diff_inter_l l s : diff l (inter s l) = diff l s.
+  Proof.
+    unfold diff. apply filter_ext_in. intros x Hx. rewrite mem_inter.
+    apply mem_In in Hx. rewrite Hx, andb_true_r. reflexivity.
+  Qed.
+
+  Lemma raise_law s o e :
+    builtin vld s o None = (Raise e, s) -> is_copy o = false -> law_step vld s o (raise e s) = [].
+  Proof.
+    intros Hb Hc. eapply law_step_intro; cbn [raise o_out o_after o_events o_ret o_copy_validates].
+    - exact Hb.
+    - cbn. destruct e; reflexivity.
+    - apply seteq_refl.
+    - cbn. rewrite seteq_refl. reflexivity.
+    - apply clauses_raise.
+    - rewrite Hc. reflexivity.
+  Qed.
+
+  Lemma ok_law s o new evs ba :
+    builtin vld s o None = (Ok, ba) -> is_copy o = false ->
+    seteq new ba = true -> clauses s new evs -> law_step vld s o (ok new evs) = [].
+  Proof.
+    intros Hb Hc H2 Hcl. eapply law_step_intro; cbn [ok o_out o_after o_events o_ret o_copy_validates].
+    - exact Hb.
+    - reflexivity.
+    - exact H2.
+    - reflexivity.
+    - exact Hcl.
+    - rewrite Hc. reflexivity.
+  Qed.
+
+  Lemma removed_only_law s o new :
+    builtin vld s o None = (Ok, new) -> is_copy o = false ->
+    (forall x, mem x new = true -> mem x s = true) ->
+    law_step vld s o (removed_only s new) = [].
+  Proof.
+    intros Hb Hc Hsub. pose proof (removed_only_clauses s new Hsub) as Hcl.
+    unfold removed_only in *. apply ok_law with (ba := new); try assumption. apply seteq_refl.
+  Qed.
+
+  Lemma added_law s o vs ba :
+    builtin vld s o None = (Ok, ba) -> is_copy o = false ->
+    seteq (union s vs) ba = true ->
+    law_step vld s o (ok (union s (diff vs s)) (if is_empty (diff vs s) then [] else [([], diff vs s)])) = [].
+  Proof.
+    intros Hb Hc Hba. apply ok_law with (ba := ba); try assumption.
+    - eapply seteq_trans; [|exact Hba]. seteq_tac.
+    - pose proof (law_delta s (union s (diff vs s)) [] (diff vs s)) as H. cbn [is_empty andb] in H.
+      apply H; [reflexivity | seteq_tac | seteq_tac].
+  Qed.
+
+  Lemma xor_law s o l :
+    builtin vld s o None
+    = validated vld (diff l s) (fun vs => (Ok, union (diff s l) (diff vs s))) s ->
+    is_copy o = false ->
+    law_step vld s o
+      (let removed := inter s l in
+       let raw := diff l removed in
+       match vld_all vld raw with
+       | None => raise TraitError s
+       | Some va =>
+           let added := diff va s in
+           ok (union (diff s removed) added)
+             (if is_empty removed && is_empty added then [] else [(removed, added)])
+       end) = [].
+  Proof.
+    intros Hb Hc. cbn zeta. rewrite diff_inter_l. unfold validated in Hb.
+    destruct (vld_all vld (diff l s)) as [va|] eqn:Ev.
+    - apply ok_law with (ba := union (diff s l) (diff va s)); try assumption.
+      + seteq_tac.
+      + apply law_delta; seteq_tac.
+    - apply raise_law; assumption.
+  Qed.
+
+  Theorem step_law s o : law_step vld s o (step vld s o) = [].
+  Proof.
+    destruct o as [x|x|x|hint| |args|a|a|a|a|args|args|l|k]; cbn [step].
+    - (* Add *)
+      destruct (vld x) as [v|] eqn:Ev.
+      + destruct (mem v s) eqn:Em.
+        * apply ok_law with (ba := union s [v]); [cbn; unfold validated; cbn; rewrite Ev; reflexivity | reflexivity | | ].
+          -- seteq_tac.
+          -- apply law_unchanged, seteq_refl.
+        * apply ok_law with (ba := union s [v]); [cbn; unfold validated; cbn; rewrite Ev; reflexivity | reflexivity | | ].
+          -- seteq_tac.
+          -- apply law_changed; [reflexivity | | | reflexivity].
+             ++ cbn. rewrite Em. reflexivity.
+             ++ seteq_tac.
+      + apply raise_law; [cbn; unfold validated; cbn; rewrite Ev; reflexivity | reflexivity].
+    - (* Discard *)
+      destruct (mem x s) eqn:Em.
+      + apply ok_law with (ba := remove1 x s); [reflexivity | reflexivity | apply seteq_refl |].
+        apply law_changed; [ | reflexivity | | reflexivity].
+        * cbn. rewrite Em. reflexivity.
+        * seteq_tac.
+      + apply ok_law with (ba := remove1 x s); [reflexivity | reflexivity | | apply law_unchanged, seteq_refl].
+        seteq_tac.
+    - (* Remove *)
+      destruct (mem x s) eqn:Em.
+      + apply ok_law with (ba := remove1 x s); [cbn; rewrite Em; reflexivity | reflexivity | apply seteq_refl |].
+        apply law_changed; [ | reflexivity | | reflexivity].
+        * cbn. rewrite Em. reflexivity.
+        * seteq_tac.
+      + apply raise_law; [cbn; rewrite Em; reflexivity | reflexivity].
+    - (* Pop *)
+      destruct s as [|h t].
+      + apply raise_law; reflexivity.
+      + cbn iota. set (s := h :: t).
+        set (x := match hint with Some y => if mem y s then y else h | None => h end).
+        assert (Hx : mem x s = true).
+        { subst x. destruct hint as [y|]; [destruct (mem y s) eqn:E; [exact E|] |];
+            subst s; rewrite mem_cons, Z.eqb_refl; reflexivity. }
+        eapply law_step_intro with (bo := Ok) (ba := remove1 x s);
+          cbn [o_out o_after o_events o_ret o_copy_validates].
+        * assert (He : is_empty s = false) by reflexivity.
+          cbn [builtin]. rewrite He.
+          match goal with |- (if ?c then _ else _) = _ => replace c with true by (symmetry; exact Hx) end.
+          reflexivity.
+        * reflexivity.
+        * apply seteq_refl.
+        * reflexivity.
+        * apply law_changed; [ | reflexivity | | reflexivity].
+          -- unfold subset. cbn [forallb]. rewrite Hx. reflexivity.
+          -- clearbody x s. seteq_tac.
+        * reflexivity.
+    - (* Clear *)
+      destruct (is_empty s) eqn:Ee.
+      + apply ok_law with (ba := []); [reflexivity | reflexivity | reflexivity |].
+        apply law_unchanged. destruct s; [reflexivity | discriminate].
+      + apply ok_law with (ba := []); [reflexivity | reflexivity | reflexivity |].
+        apply law_changed; [seteq_tac | reflexivity | seteq_tac | ]. cbn. rewrite Ee. reflexivity.
+    - (* Update *)
+      destruct (vld_all vld (concat args)) as [vs|] eqn:Ev.
+      + apply added_law with (ba := union s vs);
+          [cbn; unfold validated; rewrite Ev; reflexivity | reflexivity | apply seteq_refl].
+      + apply raise_law; [cbn; unfold validated; rewrite Ev; reflexivity | reflexivity].
+    - (* Ior *)
+      destruct a as [l|l]; [| apply raise_law; reflexivity].
+      destruct (vld_all vld l) as [vs|] eqn:Ev.
+      + apply ok_law with (ba := union s vs);
+          [cbn; unfold validated; rewrite Ev; reflexivity | reflexivity | apply seteq_refl |].
+        pose proof (law_delta s (union s vs) [] (diff (union s vs) s)) as H. cbn [is_empty andb] in H.
+        apply H; [reflexivity | seteq_tac | seteq_tac].
+      + apply raise_law; [cbn; unfold validated; rewrite Ev; reflexivity | reflexivity].
+    - (* Iand *)
+      destruct a as [l|l]; [| apply raise_law; reflexivity].
+      apply removed_only_law; [reflexivity | reflexivity |].
+      intros x Hx. rewrite mem_inter in Hx. apply andb_true_iff in Hx. tauto.
+    - (* Isub *)
+      destruct a as [l|l]; [| apply raise_law; reflexivity].
+      apply removed_only_law; [reflexivity | reflexivity |].
+      intros x Hx. rewrite mem_diff in Hx. apply andb_true_iff in Hx. tauto.
+    - (* Ixor *)
+      destruct a as [l|l]; [| apply raise_law; reflexivity].
+      apply xor_law; reflexivity.
+    - (* DiffUpdate *)
+      apply removed_only_law; [reflexivity | reflexivity | apply fold_diff_subset].
+    - (* InterUpdate *)
+      apply removed_only_law; [reflexivity | reflexivity | apply fold_inter_subset].
+    - (* SymDiffUpdate *)
+      apply xor_law; reflexivity.
+    - (* Copy *)
+      eapply law_step_intro with (bo := Ok) (ba := s); cbn [o_out o_after o_events o_ret o_copy_validates].
+      + reflexivity.
+      + reflexivity.
+      + apply seteq_refl.
+      + reflexivity.
+      + apply clauses_raise.
+      + cbn. rewrite seteq_refl. reflexivity.
+  Qed.
+
+  (* The law holds on every history of the model, from every state. *)
+  Theorem run_law : forall ops s i, law_hist vld i s (run vld s ops) = [].
+  Proof.
+    induction ops as [|o ops IH]; intros s i; cbn [run law_hist]; [reflexivity|].
+    rewrite step_law. cbn [map app]. apply IH.
+  Qed.
+End Main.
+
+(* ------------------------------------------------------------------ *)
+(* Prop readings of the clauses (what the boolean law means).           *)
+
+Lemma chk_app_nil k b r : chk k b ++ r = [] -> b = true /\ r = [].
+Proof. destruct b; cbn; intros H; [split; [reflexivity | exact H] | discriminate]. Qed.
+
+Section Readings.
+  Variable vld : Z -> option Z.
+
+  Lemma law_step_inv s o ob :
+    law_step vld s o ob = [] ->
+    let '(bo, ba) := builtin vld s o (o_ret ob) in
+    outcome_eqb (o_out ob) bo = true /\
+    seteq (o_after ob) ba = true /\
+    (negb (is_raise (o_out ob)) || (seteq (o_after ob) s && is_nil (o_events ob))) = true /\
+    Nat.leb (length (o_events ob)) 1 = true /\
+    (negb (negb (seteq s (o_after ob))) || negb (is_nil (o_events ob))) = true /\
+    (negb (seteq s (o_after ob)) || is_nil (o_events ob)) = true /\
+    forallb (event_ok s (o_after ob)) (o_events ob) = true.
+  Proof.
+    unfold law_step. destruct (builtin vld s o (o_ret ob)) as [bo ba]. intros H.
+    apply chk_app_nil in H; destruct H as [H1 H]. apply chk_app_nil in H; destruct H as [H2 H].
+    apply chk_app_nil in H; destruct H as [H3 H]. apply chk_app_nil in H; destruct H as [H4 H].
+    apply chk_app_nil in H; destruct H as [H5 H]. apply chk_app_nil in H; destruct H as [H6 H].
+    apply chk_app_nil in H; destruct H as [H7 H]. repeat split; assumption.
+  Qed.
+
+  Lemma step_delta s o rem add :
+    In (rem, add) (o_events (step vld s o)) ->
+    (forall x, mem x rem = true -> mem x s = true) /\
+    (forall x, mem x add = true -> mem x s = false) /\
+    (forall x, mem x (o_after (step vld s o)) = (mem x s && negb (mem x rem)) || mem x add) /\
+    (exists x, mem x rem = true \/ mem x add = true).
+  Proof.
+    intros Hin. pose proof (law_step_inv s o _ (step_law vld s o)) as H.
+    destruct (builtin vld s o (o_ret (step vld s o))) as [bo ba].
+    destruct H as (_ & _ & _ & _ & _ & _ & H7).
+    rewrite forallb_forall in H7. specialize (H7 _ Hin). unfold event_ok in H7.
+    apply andb_true_iff in H7; destruct H7 as [H7 Hne].
+    apply andb_true_iff in H7; destruct H7 as [H7 Heq].
+    apply andb_true_iff in H7; destruct H7 as [Hs Hd].
+    rewrite subset_spec in Hs. rewrite disjoint_spec in Hd. rewrite seteq_spec in Heq.
+    split; [exact Hs|]. split; [exact Hd|]. split.
+    - intro x. rewrite <- Heq. mem_norm. reflexivity.
+    - apply negb_true_iff, andb_false_iff in Hne. destruct Hne as [Hn|Hn];
+        apply is_empty_false in Hn; destruct Hn as [x Hx]; exists x; tauto.
+  Qed.
+
+  Lemma step_one_event_iff_changed s o :
+    (seteq s (o_after (step vld s o)) = true -> o_events (step vld s o) = []) /\
+    (seteq s (o_after (step vld s o)) = false -> exists ev, o_events (step vld s o) = [ev]).
+  Proof.
+    pose proof (law_step_inv s o _ (step_law vld s o)) as H.
+    destruct (builtin vld s o (o_ret (step vld s o))) as [bo ba].
+    destruct H as (_ & _ & _ & H4 & H5 & H6 & _).
+    destruct (o_events (step vld s o)) as [|ev [|ev2 r]]; split; intros Hs; rewrite Hs in *; cbn in *;
+      try reflexivity; try discriminate; exists ev; reflexivity.
+  Qed.
+
+  Lemma step_failing_inert s o e :
+    o_out (step vld s o) = Raise e ->
+    (forall x, mem x (o_after (step vld s o)) = mem x s) /\ o_events (step vld s o) = [].
+  Proof.
+    intros He. pose proof (law_step_inv s o _ (step_law vld s o)) as H.
+    destruct (builtin vld s o (o_ret (step vld s o))) as [bo ba].
+    destruct H as (_ & _ & H3 & _). rewrite He in H3. cbn in H3.
+    apply andb_true_iff in H3. destruct H3 as [Ha Hn].
+    rewrite seteq_spec in Ha. split; [exact Ha|].
+    destruct (o_events (step vld s o)); [reflexivity | discriminate].
+  Qed.
+
+  Lemma step_refines_builtin s o :
+    let ob := step vld s o in
+    let '(bo, ba) := builtin vld s o (o_ret ob) in
+    o_out ob = bo /\ (forall x, mem x (o_after ob) = mem x ba).
+  Proof.
+    cbn zeta. pose proof (law_step_inv s o _ (step_law vld s o)) as H.
+    destruct (builtin vld s o (o_ret (step vld s o))) as [bo ba].
+    destruct H as (H1 & H2 & _). split.
+    - destruct (o_out (step vld s o)) as [|e1], bo as [|e2]; cbn in H1; try discriminate; try reflexivity.
+      destruct e1, e2; cbn in H1; try discriminate; reflexivity.
+    - apply seteq_spec. exact H2.
+  Qed.
+
+  (* For a validator that never converts (accept-or-reject), ^= and
+     symmetric_difference_update compute exactly the built-in symmetric difference. *)
+  Lemma vld_all_id (Hid : forall x y, vld x = Some y -> y = x) xs vs : vld_all vld xs = Some vs -> vs = xs.
+  Proof.
+    revert vs. induction xs as [|x r IH]; cbn; intros vs H; [congruence|].
+    destruct (vld x) as [y|] eqn:Ex; [|discriminate]. destruct (vld_all vld r) as [ys|]; [|discriminate].
+    injection H as <-. rewrite (Hid _ _ Ex), (IH ys); reflexivity.
+  Qed.
+
+  Lemma sdu_is_symmetric_difference (Hid : forall x y, vld x = Some y -> y = x) s l :
+    o_out (step vld s (SymDiffUpdate l)) = Ok ->
+    forall x, mem x (o_after (step vld s (SymDiffUpdate l))) = xorb (mem x s) (mem x l).
+  Proof.
+    cbn [step]. rewrite diff_inter_l. destruct (vld_all vld (diff l s)) as [va|] eqn:Ev; [|discriminate].
+    intros _ x. apply (vld_all_id Hid) in Ev. subst va. cbn [ok o_after]. mem_norm.
+    destruct (mem x s), (mem x l); reflexivity.
+  Qed.
+End Readings.
